@@ -33,7 +33,7 @@ class CRecorder:
         if sa.new_ike_sa is not None and depth == 0:
             succ = self.sa_sx(sa.new_ike_sa, 1)
         return [self.cid(sa), spi_int(sa.my_spi), int(sa.state), succ, 2 * len(sa.child_sas), list(t[0]), list(t[1]),
-                list(t[2])]
+                list(t[2]), 1 if sa.cookie_secret is not None else 0]
 
     def table_out(self, ctrl):
         return [[self.cid(s), int(s.state), 2 * len(s.child_sas), 1 if s.cookie_secret is not None else 0,
